@@ -117,7 +117,8 @@ def array_rule(ctx, p, K):
     mm = arr.lookup("containing_indices")
     txt = {norm_text(n.targets[0]): norm_text(n.value) for n in mm.body_nodes() if isinstance(n, ast.Assign)}
     rets = wire.returns_of(mm)
-    ctx.ob("C20.containment", mm.key, len(rets) == 1 and any(isinstance(n, ast.Assign) and norm_text(n.targets[0]) == "inside" and wire.text_nokw(n.value) == "shape.mask(self.triangles)" for n in mm.body_nodes()) and len(rets) == 1 and norm_text(rets[0].value) == "np.where(inside)[0]", where=mm, node=mm.node, construct=str(txt), message="containing indices = positions where the shape's mask of these triangles is true")
+    rv_ = wire.text_nokw(wire.inline_locals(mm, rets[0].value)) if len(rets) == 1 else ""   # name-free
+    ctx.ob("C20.containment", mm.key, rv_.replace(" ", "") == "np.where(shape.mask(self.triangles))[0]", where=mm, node=mm.node, construct=str(txt), message="containing indices = positions where the shape's mask of these triangles is true")
 
 
 # --------------------------------------------------------------------------------------------------------------------
@@ -189,10 +190,13 @@ def lattice_rule(ctx, p, K):
     # flip mask: parity of cx + cy, inverted when flipped; flip_array = -1 on the mask, +1 elsewhere
     fm = ab.lookup("flip_mask")
     txt = [norm_text(n) for n in fm.body_nodes() if isinstance(n, (ast.Assign, ast.If, ast.Return))]
-    okf = any(t.replace(" ", "") == "mask=(self.coordinates[:,0]+self.coordinates[:,1])%2!=0" for t in txt) and any(t.startswith("if self.flipped:") and "mask = ~mask" in t for t in txt)
+    # name-free (sa/paths.py): parity mask returned as it is when not flipped, inverted when flipped
+    PAR = "(self.coordinates[:,0]+self.coordinates[:,1])%2!=0"
+    pf = {q.holds("self.flipped"): q.text for q in paths.returns(paths.path_summaries(fm) or [])}
+    okf = pf.get(False) in (PAR, f"({PAR})") and pf.get(True) in (f"~({PAR})", f"np.invert({PAR})", f"np.logical_not({PAR})") and set(pf) == {True, False}
     fa = co.lookup("flip_array")
-    txa = [norm_text(n) for n in fa.body_nodes() if isinstance(n, ast.Assign)]
-    okf = okf and "array = np.ones(self.coordinates.shape[0])" in txa and "array[self.flip_mask] = -1" in txa
+    pa = [q.text for q in paths.returns(paths.path_summaries(fa) or [])]
+    okf = okf and len(pa) == 1 and pa[0].startswith("__store__(np.ones(self.coordinates.shape[0]),self.flip_mask,-1)")   # (possibly reshaped to a column afterwards)
     ctx.ob(rule, f"{ab.key}:flip", okf, where=fm, node=fm.node, construct=str(txt)[:200], message="a triangle is flipped (sign -1) iff (cx + cy) is odd, the other way round when `flipped` is set")
     if not okf:
         return
